@@ -670,6 +670,40 @@ func searchResultBoundChecked(c *Ctx) {
 			}
 		}
 	}
+	// any other position findLIDs reads the ID table at (a neighbour of a previous hit, a remembered position) is
+	// compared against a bound first: the table ends at the fraction's last LID, and the LID after the oldest
+	// document's does not exist
+	if fn := c.P.Func("(*frac.sealedFetchIndex).findLIDs"); fn != nil {
+		for _, call := range CallsIn(fn, access) {
+			args := call.Common().Args
+			idx := stripConvs(args[len(args)-1])
+			fromSearch := DerivesFrom(idx, func(v ssa.Value) bool {
+				cl, ok := v.(ssa.CallInstruction)
+				return ok && (CallName(cl) == "util.BinSearchInRange" || CallName(cl) == "sort.Search")
+			})
+			if fromSearch {
+				continue // judged above
+			}
+			checked := false
+			for _, f := range FactsAtInstr(call.(ssa.Instruction)) {
+				bo, ok := f.Cond.(*ssa.BinOp)
+				if !ok {
+					continue
+				}
+				switch bo.Op {
+				case token.LSS, token.LEQ, token.GTR, token.GEQ:
+					if DerivesFrom(bo.X, func(v ssa.Value) bool { return v == idx }) || DerivesFrom(bo.Y, func(v ssa.Value) bool { return v == idx }) {
+						checked = true
+					}
+				}
+			}
+			if checked {
+				c.Site(call.Pos(), "findLIDs reads the ID table at a computed position only after comparing it with a bound")
+			} else {
+				c.Violation("index:findLIDs:"+CallName(call)+":unbounded-position", call.Pos(), "findLIDs reads the ID table at %s, a position that does not come from the bounded binary search and is not compared with the table's last LID: probing the LID next to the previous hit indexes past the table when that hit was the fraction's oldest document — the panic fails the whole fetch", Short(idx.String()))
+			}
+		}
+	}
 	if fn := c.P.Func("(*frac.sealedFetchIndex).findLIDs"); fn == nil || !Current.HasCall(fn, Callee("util.BinSearchInRange", "sort.Search")) {
 		c.Undecided("index:findLIDs-anchor", token.NoPos, "(*frac.sealedFetchIndex).findLIDs no longer performs the binary search this rule is about")
 	}
